@@ -478,7 +478,15 @@ func peersStr(ps []*metapb.Peer) string { return opsim.PeersText(ps, ",") }
 
 // stepsFromBuilder asks the real builder for an operator on the simulated region.
 func (w *world) stepsFromBuilder(r *rng.R, s *opsim.Sim, joint bool) (string, bool) {
-	cl := opsim.NewCluster(w.ctx, true, joint, 0, func() []opsim.StoreSpec {
+	return w.stepsFromBuilderOn(r, s, r.Bool(3, 4), joint, false)
+}
+
+// stepsFromBuilderOn: support = the cluster supports joint consensus (demotion in place allowed),
+// joint = the option is on; inPlace favours targets that change roles on the stores the region already
+// uses (voter -> learner on the same store, which without joint-consensus support becomes
+// RemovePeer + AddLearner on one store).
+func (w *world) stepsFromBuilderOn(r *rng.R, s *opsim.Sim, support, joint, inPlace bool) (string, bool) {
+	cl := opsim.NewCluster(w.ctx, support, joint, 0, func() []opsim.StoreSpec {
 		var st []opsim.StoreSpec
 		for i := 1; i <= nStores; i++ {
 			st = append(st, opsim.StoreSpec{ID: uint64(i), State: 'u', Flags: "-"})
@@ -489,9 +497,13 @@ func (w *world) stepsFromBuilder(r *rng.R, s *opsim.Sim, joint bool) (string, bo
 	region := s.Region()
 	target := map[uint64]*metapb.Peer{}
 	for _, p := range s.Peers {
-		if r.Bool(3, 4) {
+		keep, flip := 3, 4
+		if inPlace {
+			keep, flip = 7, 2
+		}
+		if r.Bool(keep, keep+1) {
 			role := metapb.PeerRole_Voter
-			if r.Bool(1, 4) {
+			if r.Bool(1, flip) {
 				role = metapb.PeerRole_Learner
 			}
 			target[p.GetStoreId()] = &metapb.Peer{StoreId: p.GetStoreId(), Role: role}
@@ -714,6 +726,60 @@ func gen(w *world, t *trace.W, r *rng.R, events int, faithful bool, sleeps int) 
 	}
 }
 
+// walk produces a sequence in which builder-made operators are executed faithfully, step by step:
+// after every execution by the store there is a heartbeat while the new peer is still pending, then the
+// peer catches up and there is another heartbeat.  Nothing else touches the region, so an operator
+// must never be cancelled here.  All feature levels: joint consensus on / off / unsupported (the last
+// one yields RemovePeer + AddLearner on one store for a voter -> learner change).
+func walk(w *world, t *trace.W, r *rng.R, walks int) {
+	w.run(t, "reset max=5", true)
+	n := r.Range(2, 4)
+	perm := make([]int, nStores)
+	for k := range perm {
+		perm[k] = k + 1
+	}
+	for k := nStores - 1; k > 0; k-- {
+		j := r.Intn(k + 1)
+		perm[k], perm[j] = perm[j], perm[k]
+	}
+	var ps []string
+	for k := 0; k < n; k++ {
+		role := "v"
+		if k > 1 && r.Bool(1, 4) {
+			role = "l"
+		}
+		ps = append(ps, fmt.Sprintf("%d%s%d", perm[k], role, 100+perm[k]))
+	}
+	w.run(t, fmt.Sprintf("region r=1 p=%s L=%d cv=%d v=%d", strings.Join(ps, ","), perm[0], r.Range(1, 9), r.Range(1, 9)), true)
+	id := uint64(0)
+	for k := 0; k < walks; k++ {
+		s := w.sims[1]
+		if s == nil || len(s.Peers) == 0 {
+			return
+		}
+		support := r.Bool(1, 2)
+		steps, kr := w.stepsFromBuilderOn(r, s, support, support && r.Bool(1, 2), r.Bool(2, 3))
+		if steps == "" {
+			continue
+		}
+		id++
+		w.run(t, fmt.Sprintf("mkop id=%d d=0 r=1 cv=%d v=%d lvl=1 kr=%d km=0 steps=%s", id, s.ConfVer, s.Version,
+			map[bool]int{false: 0, true: 1}[kr], steps), true)
+		w.run(t, fmt.Sprintf("add ids=%d", id), true)
+		for round, rounds := 0, strings.Count(steps, ",")+3; round < rounds; round++ {
+			w.run(t, "exec r=1", true)
+			if r.Bool(3, 4) {
+				w.run(t, "hb r=1", true) // the new peer may still be pending
+			}
+			w.run(t, "caught r=1", true)
+			obs := w.run(t, "hb r=1", true)
+			if !strings.Contains(obs, fmt.Sprintf(" run=1:%d:", id)) {
+				break // finished (or, with a defect, cancelled)
+			}
+		}
+	}
+}
+
 func main() {
 	out := flag.String("out", "-", "trace file")
 	replay := flag.String("replay", "", "ops file to replay instead of generating")
@@ -737,6 +803,10 @@ func main() {
 		sl := 0
 		if s < *sleepSeqs {
 			sl = 3
+		}
+		if s%4 == 3 {
+			walk(w, t, r, r.Range(2, 4))
+			continue
 		}
 		gen(w, t, r, r.Range(20, *events), s%3 != 2, sl)
 	}
